@@ -114,12 +114,12 @@ NodesOfPkg(x, p) == {IfNode(p, L) : L \in CListed(x, p)} \cup UNION {SeqSet(EntS
 Lit(s) == TR!Lit(s)
 Var(v) == TR!Var(v)
 Params == {"all", "recursive", "include-interface-regex", "exclude-interface-regex", "exclude-subpkg-regex", "dir", "filename",
-           "structname", "pkgname", "template", "template-schema", "force-file-write", "log-level"}
+           "structname", "pkgname", "template", "template-schema", "force-file-write", "log-level", "build-tags"}
 Defaults ==   ("all" :> FALSE) @@ ("recursive" :> FALSE) @@ ("include-interface-regex" :> {}) @@ ("exclude-interface-regex" :> {})
            @@ ("exclude-subpkg-regex" :> << >>) @@ ("dir" :> "def") @@ ("filename" :> <<Lit("mocks_test.go")>>)
            @@ ("structname" :> <<Var("Mock"), Var("InterfaceName")>>) @@ ("pkgname" :> <<Var("SrcPackageName")>>)
            @@ ("template" :> "testify") @@ ("template-schema" :> <<Var("Template"), Lit(".schema.json")>>)
-           @@ ("force-file-write" :> FALSE) @@ ("log-level" :> "info")
+           @@ ("force-file-write" :> FALSE) @@ ("log-level" :> "info") @@ ("build-tags" :> "")
 DirTok(form)  == CASE form = "def" -> <<Var("InterfaceDir")>>
                    [] form = "mocks" -> <<Var("InterfaceDir"), Lit("/mocks")>>
                    [] form = "up" -> <<Var("InterfaceDir"), Lit("/../gen")>>
@@ -151,26 +151,41 @@ ParentKey(segs) == LY!JoinSegs(SubSeq(segs, 1, Len(segs) - 1))
 -----------------------------------------------------------------------------
 (* CONTRACT *)
 CfgDir(x)  == LY!ConfigDirUsed(x.lay)
-\* effective configuration at node n: most specific level of the chain that sets the parameter, else the default
-CNodeCfg(x, n) == [p \in Params |-> IF CHits(x, p, n) = {} THEN Defaults[p] ELSE CEff(x, p, n)]
+\* TLC re-evaluates a LET definition / operator argument on every reference; With1 binds a VALUE instead
+With1(v, Op(_)) == CHOOSE r \in {Op(y) : y \in {v}} : TRUE
+\* effective configuration at node n: most specific level of the chain that sets the parameter, else the default.
+\* CNodeCfgCT is the definition by ConfigTreeContract!EffScalar; CNodeCfg is the same function restated over the chain
+\* (ConfigTreeContract!Chain) taken ONCE per node, because TLC re-tabulates an INSTANCE's ChainTbl on every reference
+\* (a factor of ~1000 here).  EffAgreesWithCT (checked by the *_cases cfgs on every world) is their equality.
+CNodeCfgCT(x, n) == [p \in Params |-> IF CHits(x, p, n) = {} THEN Defaults[p] ELSE CEff(x, p, n)]
+ChainOf(x, n) == CASE x.shape = "S1" -> CT1!Chain(n) [] x.shape = "S2" -> CT2!Chain(n) [] x.shape = "S3" -> CT3!Chain(n)
+RECURSIVE FirstSet(_, _, _)
+FirstSet(cfg, ch, p) == IF ch = << >> THEN Defaults[p]
+                        ELSE IF Head(ch) \in DOMAIN cfg /\ p \in DOMAIN cfg[Head(ch)] THEN cfg[Head(ch)][p]
+                        ELSE FirstSet(cfg, Tail(ch), p)
+CNodeCfg(x, n) == With1(ChainOf(x, n), LAMBDA ch : [p \in Params |-> FirstSet(x.cfg, ch, p)] @@ << >>)
 \* one mock of the contract (selection o configuration, ConfigTreeContract!Mocks) with its resolved values
 \* (TemplateResolve fixpoint under the documented bindings) and its output path (Layout directories, clean join)
-MockInfo(x, m) ==
-  LET c    == CNodeCfg(x, m.from)
-      v    == ValsOf(c)
-      fix  == TR!Iterate(NormVals(v), Bind(m.pkg, m.letter, c["template"], CfgDir(x)), v["structname"], 22)
-      segs == Clean(TRUE, DirSegs(c["dir"], PkgDir(m.pkg)) \o <<TR!Text(fix.vals["filename"])>>)
+MockInfoOf(x, m, c, fix) ==
+  LET segs == Clean(TRUE, DirSegs(c["dir"], PkgDir(m.pkg)) \o <<TR!Text(fix.vals["filename"])>>)
   IN [pkg |-> P(m.pkg), pid |-> m.pkg, iface |-> m.letter, node |-> m.from, ok |-> fix.n # -1,
       file |-> FileKey(segs), fsegs |-> segs, struct |-> TR!Text(fix.vals["structname"]),
       pkgname |-> TR!Text(fix.vals["pkgname"]), schema |-> TR!Text(fix.vals["schema"]),
       tid |-> c["template"], tmpl |-> TemplStr(c["template"]), force |-> c["force-file-write"]]
+MockInfo(x, m) ==
+  With1(CNodeCfg(x, m.from), LAMBDA c :
+    With1(TR!Iterate(NormVals(ValsOf(c)), Bind(m.pkg, m.letter, c["template"], CfgDir(x)), ValsOf(c)["structname"], 22),
+          LAMBDA fix : MockInfoOf(x, m, c, fix)))
+\* build-tags (MOCKERY_BUILD_TAGS): in a `tagged` world K2 of package k is declared in a file constrained by
+\* `//go:build extra`; it exists for mockery only when the TOP-LEVEL build-tags value names that tag (mockery.go:187)
+Visible(x, p, L) == ~(x.tagged /\ p = "k" /\ L = "K2") \/ FirstSet(x.cfg, <<"flag", "root", "env">>, "build-tags") = "extra"
 MissingC(x)   == UNION {{<<P(p), L>> : L \in {n \in CListed(x, p) : n \notin DeclT[p]}} : p \in {"a", "k"}}
 LevelOK(x)    == CNodeCfg(x, "flag")["log-level"] \in LogLevels
 \* the package table a run uses and `showconfig` shows: package -> node whose effective configuration it carries
 CTable(x) == [p \in {"a", "k"} \cup {s \in {"ab"} : CDiscovered(x, "a", s)} |-> IF p = "ab" THEN "a" ELSE p]
 MockRecOf(i) == [pkg |-> i.pkg, iface |-> i.iface, file |-> i.file, struct |-> i.struct, pkgname |-> i.pkgname, tmpl |-> i.tmpl]
 SelKeyOf(p, L) == P(p) \o "|" \o L
-ExpSel(x) == UNION {{SelKeyOf(p, L) : L \in {n \in DeclT[p] : CSelected(x, p, n)}} : p \in {"a", "k"}}
+ExpSel(x) == UNION {{SelKeyOf(p, L) : L \in {n \in DeclT[p] : CSelected(x, p, n) /\ Visible(x, p, n)}} : p \in {"a", "k"}}
              \cup {SelKeyOf("ab", L) : L \in {n \in DeclT["ab"] : "ab" \in DOMAIN CTable(x) /\ CSelected(x, "a", n)}}
 
 \* Everything the contract says about world x, computed ONCE (TLC does not cache operator applications):
@@ -180,9 +195,8 @@ ExpSel(x) == UNION {{SelKeyOf(p, L) : L \in {n \in DeclT[p] : CSelected(x, p, n)
 \*   allowed    "old" / "new" per file (Pipeline!AllowedFinal), new = the complete new content
 \*   wellformed mocks sharing a file agree on force-file-write and have distinct struct names (else the statement
 \*              leaves the outcome open: such worlds are not generated)
-Contract(x) ==
-  LET I      == {MockInfo(x, m) : m \in CMocks(x)}
-      F      == {i.file : i \in I}
+ContractOf(x, I) ==
+  LET F      == {i.file : i \in I}
       Of(f)  == {i \in I : i.file = f}
       Uni(f) == \A i, j \in Of(f) : i.pkg = j.pkg /\ i.pkgname = j.pkgname /\ i.tmpl = j.tmpl
       Frc(f) == \A i \in Of(f) : i.force
@@ -217,8 +231,9 @@ Contract(x) ==
                  force |-> {[file |-> f, force |-> Frc(f)] : f \in F},
                  src   |-> {[sub |-> P(s), parent |-> P(T[s])] : s \in {q \in DOMAIN T : T[q] # q}},
                  exit  |-> Ex]]
+Contract(x) == With1({MockInfo(x, m) : m \in {mm \in CMocks(x) : Visible(x, mm.pkg, mm.letter)}}, LAMBDA I : ContractOf(x, I))
 WellFormed(x) == Contract(x).wellformed
-CFiles(x) == {MockInfo(x, m).file : m \in CMocks(x)}
+CFiles(x) == {MockInfo(x, m).file : m \in {mm \in CMocks(x) : Visible(x, mm.pkg, mm.letter)}}
 
 -----------------------------------------------------------------------------
 (* CODE-SHAPED CLOSED MODEL *)
@@ -375,7 +390,8 @@ Parse ==
 NextPkg(p) ==
   /\ pc = "selpkg" /\ p \in pend
   /\ pend' = pend \ {p}
-  /\ cx' = [cx EXCEPT !.curp = p, !.ifq = IfSeq[p]]
+  /\ cx' = [cx EXCEPT !.curp = p,        \* the declarations the build tags let through, in source order
+                       !.ifq = SelectSeq(IfSeq[p], LAMBDA L : ~(w.tagged /\ p = "k" /\ L = "K2") \/ mcfg["root"]["build-tags"] = "extra")]
   /\ pc' = "seliface"
   /\ SkKeep /\ UNCHANGED <<w, cc, mcfg, rs, cnode, fs, mk, out, xc, snap, anyfail>>
 
@@ -574,6 +590,8 @@ Next == \/ Start \/ LoadSources \/ InitBegin \/ (\E p \in Pkgs : InitPkg(p)) \/ 
         \/ Failpoint("mkdir", "mkdir") \/ Failpoint("stat", "stat") \/ Failpoint("write", "write")
         \/ Mkdir \/ Stat \/ Write \/ EndFiles \/ (\E m \in pend : Missing(m)) \/ Exit \/ Die \/ ProcExit \/ Tree \/ Done
 Spec == Init /\ [][Next]_vars
+\* cc and the expectation inside xb are functions of w: not fingerprinted
+view == <<ini, tbl, pass1, sl, colls, fl, fin, xb.used, w, pc, mcfg, pend, cx, rs, cnode, fs, mk, out, xc, snap, anyfail>>
 WorldsOnly == Init /\ [][FALSE]_vars
 
 -----------------------------------------------------------------------------
@@ -584,7 +602,6 @@ OutcomeOf(f) == IF f \notin DOMAIN fs THEN "other"
                 ELSE IF fs[f] = Fs0[f] THEN "old" ELSE IF fs[f] = cc.new[f] THEN "new" ELSE "other"
 
 TypeOK == /\ xc \in {-1, 0, 1} /\ \A k \in DOMAIN fs : fs[k].kind \in {"absent", "user", "keep", "new"}
-          /\ cc = Contract(w)
 \* selection o configuration o template resolution o pipeline: status 0 means that for every (package, interface,
 \* entry) the contract selects, the file at the path the contract's effective dir / filename give holds new content
 \* with exactly the contract's (interface, struct name) pairs for that path
@@ -636,8 +653,12 @@ NeverBlocked == ~(Finished /\ \E f \in fl.failed : f \in w.occ)
 NeverConflict == ~(Finished /\ IsRun /\ \E f \in cc.files : ~cc.uniform[f])
 NeverLoop == ~sl.reserr
 NeverMissing == fin.miss = {}
+\* cross-check of the restated effective-value function against ConfigTreeContract!EffScalar (cases cfgs)
+EffAgreesWithCT == \A n \in {"flag", "a", "k"} \cup DOMAIN cc.nodes : CNodeCfg(w, n) = CNodeCfgCT(w, n)
 
 -----------------------------------------------------------------------------
 (* Export: one CASE per world with the contract's expectation *)
-EmitCase == IF pc = "start" THEN PrintT(<<"CASE", ToJson([world |-> w, expect |-> cc])>>) ELSE TRUE
+LayoutRec(l) == [files |-> LY!CfgFiles(l), param |-> LY!ConfigParam(l), envparam |-> LY!EnvParam(l), cwd |-> l.cwd,
+                 used |-> LY!ConfigDirUsed(l)]
+EmitCase == IF pc = "start" THEN PrintT(<<"CASE", ToJson([world |-> w, expect |-> cc, layout |-> LayoutRec(w.lay)])>>) ELSE TRUE
 =============================================================================
